@@ -16,15 +16,18 @@ every operation, for every tracked object:
  (3) state, event sequence, outcome class (ok / SQLAlchemy error), result
      objects and transaction depth equal the model's prediction.
 
-Findings on the unchanged tree (each judged against doc/build/orm/session_events.rst,
-session_state_management.rst and the SessionEvents docstrings; signatures are
-root-cause keyed, see ``check_step``): deleted objects stay "deleted" after
-commit with expire_on_commit=False and after close(); deleted_to_persistent
-fires on rollback for an object that was only *marked* for deletion; objects
-that left the session (expunge / make_transient) but are still in the
-transaction's snapshot collections get events / state changes / make
-rollback() raise; a stale ``_deleted`` flag survives the rollback of
-INSERT+DELETE and makes the next INSERT report the "deleted" state.
+Defects this check found on the original tree (each judged against
+doc/build/orm/session_events.rst, session_state_management.rst and the
+SessionEvents docstrings; all fixed in /repo by the commits 1b94f69, 21e8961,
+7fe5e03, b96aaaf, d63795a; the signatures are root-cause keyed, see
+``check_step``): deleted objects stayed "deleted" after commit with
+expire_on_commit=False and after close(); deleted_to_persistent fired on
+rollback for an object that was only *marked* for deletion; objects that had
+left the session (expunge / make_transient) but were still in the
+transaction's snapshot collections received events / state changes or made
+rollback() raise; a stale ``_deleted`` flag survived the rollback of
+INSERT+DELETE and made the next INSERT report the "deleted" state.  Reverting
+any of those commits makes the corresponding signature reappear.
 
 Mutations caught (each in a private copy, `VF_REPO=/tmp/wt-orm1 ./check C35`):
  * session.py `_register_persistent`: pending_to_persistent dispatched for
@@ -299,7 +302,10 @@ def check_step(cfg, hist_, ms, op, max_born):
                     ("%s: object %s -> %s, documented: %s" % (head, pre, st_a, want_state), "events %r, model events %r" % (got_ev, want_ev))
                 )
             elif got_ev != want_ev:
-                alt = got_ev == ["deleted_to_detached"] and want_ev == ["deleted_to_detached"]
+                # an object INSERTed and DELETEd inside the rolled-back scope: the documentation
+                # leaves open whether its eviction is reported as deleted_to_detached or as
+                # deleted_to_persistent + persistent_to_transient (sessref1.rollback_scope)
+                alt = is_rb and st_b == D and st_a == T and want_ev == ["deleted_to_detached"] and got_ev == ["deleted_to_persistent", "persistent_to_transient"]
                 if not alt:
                     problems.append(("%s: object %s -> %s events=%s, documented: %s" % (head, pre, st_a, got_ev, want_ev), ""))
 
